@@ -17,6 +17,8 @@ import (
 type expected struct {
 	c      chan *Conn
 	cancel context.CancelFunc
+	// done is closed when the Expect call that made this entry has given up.
+	done <-chan struct{}
 }
 
 // Listener is an implementation of net.Listener that is used to accept
@@ -59,11 +61,19 @@ func (l *Listener) Expect(ctx context.Context, from jid.JID, sid string) (net.Co
 	e.c = make(chan *Conn)
 	ctx, cancel := context.WithCancel(ctx)
 	e.cancel = cancel
+	e.done = ctx.Done()
 	l.expected[key] = e
 	l.eLock.Unlock()
 
 	select {
 	case <-ctx.Done():
+		// Do not leave the entry behind: an open request for this session would
+		// be handed to a call that is gone.
+		l.eLock.Lock()
+		if cur, ok := l.expected[key]; ok && cur.c == e.c {
+			delete(l.expected, key)
+		}
+		l.eLock.Unlock()
 		return nil, ctx.Err()
 	case conn, ok := <-e.c:
 		if !ok {
